@@ -10,6 +10,7 @@ import (
 	"path/filepath"
 	"strings"
 	"sync"
+	"syscall"
 )
 
 // Model is one running instance of the Lean model driver (wvmodel), spoken to line by line.
@@ -40,6 +41,8 @@ func VerifRoot() string {
 
 func StartModel() (*Model, error) {
 	cmd := exec.Command(ModelPath())
+	// never outlive the harness (a killed run must not leave spinning children behind)
+	cmd.SysProcAttr = &syscall.SysProcAttr{Pdeathsig: syscall.SIGKILL}
 	in, err := cmd.StdinPipe()
 	if err != nil {
 		return nil, err
